@@ -720,7 +720,8 @@ def r13k(ctx):
     styles.xml serve headers, footers and master pages: a table in a page header has its table, column, row and cell styles there).
     merge_styles_from copies a style into the container named like the one it came from, and insert_style / merge ask the lookup whether it
     is already there.  Rule: for every family whose element is `style:style` (FAMILY_MAPPING), the styles.xml lookup contexts
-    (CONTEXT_MAPPING, or the default used for an unlisted family) include both `//office:styles` and `//office:automatic-styles`.
+    (CONTEXT_MAPPING, or the default used for an unlisted family) include both `//office:styles` and `//office:automatic-styles`.  The same holds for
+    the data-style families (elements `number:*-style`), which office suites store in the automatic styles of styles.xml.
     """
     repo = ctx.repo
     ctx.rule("R13k", "every style:style family is looked up in both office:styles and office:automatic-styles of styles.xml", floor=10)
@@ -732,14 +733,16 @@ def r13k(ctx):
         raise AnalysisError("R13k: FAMILY_MAPPING / CONTEXT_MAPPING not foldable")
     need = {"//office:styles", "//office:automatic-styles"}
     for fam, tag in sorted(fam_map.items()):
-        if tag != "style:style" or fam not in cm:
+        # data styles (number:*-style) are copied by merge_styles_from into the automatic styles of styles.xml just like style:style elements
+        # (every spreadsheet written by an office suite has some there): the same two contexts are needed for them
+        if not (tag == "style:style" or str(tag).startswith("number:")) or fam not in cm:
             continue
         have = set(cm[fam]) if isinstance(cm[fam], (tuple, list)) else set()
         ok = need <= have
         ctx.instance("R13k", f"{st.relpath}:CONTEXT_MAPPING", f"{fam}: {sorted(have)}", ok=ok, nontrivial=True, line=st.assigns["CONTEXT_MAPPING"].lineno)
         if not ok:
             ctx.report("R13k", st, st.assigns["CONTEXT_MAPPING"], f"{fam}: looked up in {sorted(have)} only",
-                       f"styles of family {fam!r} are style:style elements and can sit in {sorted(need - have)} of styles.xml (merge_styles_from copies them there), but the lookup does not "
+                       f"styles of family {fam!r} (element {tag}) can sit in {sorted(need - have)} of styles.xml (merge_styles_from copies them there), but the lookup does not "
                        f"search it: such a style is not found again, is missing from get_styles(), and a second merge stores it twice")
 
 
